@@ -13,6 +13,7 @@
 -/
 import RotoV.Model.RustStd
 import RotoV.Generated.LayoutGen
+import RotoV.Generated.LayoutLoops
 
 namespace RotoV.Layout
 open RotoV
@@ -92,17 +93,27 @@ def Vars.ofList : List Tys → Vars
   | [] => .nil
   | v :: vs => .cons v (Vars.ofList vs)
 
-/-- `Layout::of::<u8>()`: the enum tag. -/
-def tagLayout : Layout := Layout.new 1 1
+/-- `Layout::of::<u8>()` as written in `layout_of`: the enum tag. -/
+def tagLayout : Layout := Gen.LayoutLoops.tag_layout_of
 
 /-- `let mut builder = LayoutBuilder::new(); builder.add(&Layout::of::<u8>());`
-    — the start of every per-variant loop. -/
+    — the start of `layout_of`'s per-variant loop. Each of the other four
+    loops has its own copy of these two lines, hence its own constant
+    (regenerated from its own source on every run). -/
 def variantStart : LayoutBuilder := (LayoutBuilder.new.add tagLayout).1
+/-- the same two lines in the `VariantField` arm of `Lowerer::location` -/
+def variantStartLoc : LayoutBuilder := (LayoutBuilder.new.add Gen.LayoutLoops.tag_location).1
+/-- … in `generate_clone_body_enum` -/
+def variantStartClone : LayoutBuilder := (LayoutBuilder.new.add Gen.LayoutLoops.tag_clone).1
+/-- … in `generate_drop_body_enum` -/
+def variantStartDrop : LayoutBuilder := (LayoutBuilder.new.add Gen.LayoutLoops.tag_drop).1
+/-- … in `generate_eq_body_enum` -/
+def variantStartEq : LayoutBuilder := (LayoutBuilder.new.add Gen.LayoutLoops.tag_eq).1
 
 mutual
 /-- `Pool::layout_of` (src/mir/ty.rs). `none` = uninhabited. -/
 def layoutOf : Ty → Option Layout
-  | .unit => some (Layout.new 0 1)
+  | .unit => some Gen.LayoutLoops.unit_layout
   | .never => none
   | .leaf _ s a => some (Layout.new s a)
   | .record fs =>
@@ -198,7 +209,7 @@ def variantField (vs : Vars) (v n : Nat) : Res (Option (Nat × Ty)) :=
   match vs.get? v with
   | none => .panic
   | some fields =>
-    match variantFieldLoop fields (n + 1) variantStart none with
+    match variantFieldLoop fields (n + 1) variantStartLoc none with
     | none => .ok none
     | some none => .panic
     | some (some r) => .ok (some r)
@@ -303,15 +314,15 @@ def eqRecordVisits (fs : Tys) : List Visit := eqRecordLoop fs 0 LayoutBuilder.ne
 def cloneVariantVisits (fs : Tys) : List Visit :=
   match collectLayouts fs with
   | none => []
-  | some ls => cloneVariantLoop ls 0 variantStart
+  | some ls => cloneVariantLoop ls 0 variantStartClone
 def dropVariantVisits (fs : Tys) : List Visit :=
   match collectLayouts fs with
   | none => []
-  | some ls => dropVariantLoop ls 0 variantStart
+  | some ls => dropVariantLoop ls 0 variantStartDrop
 def eqVariantVisits (fs : Tys) : List Visit :=
   match collectLayouts fs with
   | none => []
-  | some ls => eqVariantLoop ls 0 variantStart
+  | some ls => eqVariantLoop ls 0 variantStartEq
 
 /-- `layout_of`'s own placement of the fields of a record (`start = new`) or
     of a variant (`start = variantStart`): the offsets its builder hands out. -/
